@@ -233,6 +233,8 @@ with events_node (n : node) : list ev :=
 
 Definition idict := list (name * N).                      (* GraphInitializers.data, insertion order *)
 Record fstate := mkF {
+  f_rv : list name;                     (* self._reserved_value_names (fix 25cf9b5) *)
+  f_rn : list name;                     (* self._reserved_node_names *)
   f_vn : N -> option name;              (* Value.name *)
   f_nn : N -> option name;              (* Node.name *)
   f_inits : list (N * idict);           (* gid -> initializers *)
@@ -274,11 +276,12 @@ Fixpoint cnt_set (k : name) (n : N) (c : list (name * N)) : list (name * N) :=
 Definition is_empty (o : option name) : bool :=
   match o with None => true | Some [] => true | Some _ => false end.
 
-(* _find_and_record_next_unique_name(preferred, used, counter) -> (name, used', counter'); None = out of fuel *)
-Definition find_unique (pref : name) (used : list name) (cnt : list (name * N))
+(* _find_and_record_next_unique_name(preferred, used, counter, reserved) -> (name, used', counter');
+   `while new_name in used_names or new_name in reserved_names` ; None = out of fuel *)
+Definition find_unique (pref : name) (used : list name) (cnt : list (name * N)) (reserved : list name)
   : option (name * list name * list (name * N)) :=
-  if mem pref used then
-    match gen_fresh (suffixed pref) (N.succ (cnt_get pref cnt)) used with
+  if mem pref used || mem pref reserved then
+    match gen_fresh (suffixed pref) (N.succ (cnt_get pref cnt)) (used ++ reserved) with
     | None => None
     | Some (s, j) => Some (s, s :: used, cnt_set pref j cnt)
     end
@@ -315,18 +318,18 @@ Definition process_value (v : N) (s : fstate) : fres :=
       let known := match nm with Some n => negb (is_empty nm) && negb (mem n used) | None => false end in
       if known then
         (* name is unique so far: record it *)
-        (mkF (f_vn s) (f_nn s) (f_inits s) (v :: f_seen s) (f_vcnt s) (f_ncnt s)
+        (mkF (f_rv s) (f_rn s) (f_vn s) (f_nn s) (f_inits s) (v :: f_seen s) (f_vcnt s) (f_ncnt s)
              (((match nm with Some n => n | None => [] end) :: used) :: rest) (f_nscopes s) (f_mod s), None)
       else
         let pref := if is_empty nm then s_v else match nm with Some n => n | None => s_v end in
-        match find_unique pref used (f_vcnt s) with
+        match find_unique pref used (f_vcnt s) (f_rv s) with
         | None => (s, Some OtherError)
         | Some (new, used', cnt') =>
-            let s1 := mkF (f_vn s) (f_nn s) (f_inits s) (f_seen s) cnt' (f_ncnt s) (used' :: rest) (f_nscopes s) (f_mod s) in
+            let s1 := mkF (f_rv s) (f_rn s) (f_vn s) (f_nn s) (f_inits s) (f_seen s) cnt' (f_ncnt s) (used' :: rest) (f_nscopes s) (f_mod s) in
             match set_vname v new (f_vn s) (f_inits s) with
             | Raise e => (s1, Some e)
             | Ok (vn', inits') =>
-                (mkF vn' (f_nn s) inits' (v :: f_seen s) cnt' (f_ncnt s) (used' :: rest) (f_nscopes s) true, None)
+                (mkF (f_rv s) (f_rn s) vn' (f_nn s) inits' (v :: f_seen s) cnt' (f_ncnt s) (used' :: rest) (f_nscopes s) true, None)
             end
         end
   end.
@@ -348,14 +351,14 @@ Definition process_node_name (n : N) (s : fstate) : fres :=
       let nm := f_nn s n in
       let known := match nm with Some x => negb (is_empty nm) && negb (mem x used) | None => false end in
       if known then
-        (mkF (f_vn s) (f_nn s) (f_inits s) (f_seen s) (f_vcnt s) (f_ncnt s) (f_vscopes s)
+        (mkF (f_rv s) (f_rn s) (f_vn s) (f_nn s) (f_inits s) (f_seen s) (f_vcnt s) (f_ncnt s) (f_vscopes s)
              (((match nm with Some x => x | None => [] end) :: used) :: rest) (f_mod s), None)
       else
         let pref := if is_empty nm then s_node else match nm with Some x => x | None => s_node end in
-        match find_unique pref used (f_ncnt s) with
+        match find_unique pref used (f_ncnt s) (f_rn s) with
         | None => (s, Some OtherError)
         | Some (new, used', cnt') =>
-            (mkF (f_vn s) (upd (f_nn s) n (Some new)) (f_inits s) (f_seen s) (f_vcnt s) cnt' (f_vscopes s)
+            (mkF (f_rv s) (f_rn s) (f_vn s) (upd (f_nn s) n (Some new)) (f_inits s) (f_seen s) (f_vcnt s) cnt' (f_vscopes s)
                  (used' :: rest) true, None)
         end
   end.
@@ -368,7 +371,7 @@ Definition fx_step (e : ev) (s : fstate) : fres :=
       match f_vscopes s with
       | [] => (s, Some IndexError)
       | top :: _ =>
-          let s1 := mkF (f_vn s) (f_nn s) (f_inits s) (f_seen s) (f_vcnt s) (f_ncnt s)
+          let s1 := mkF (f_rv s) (f_rn s) (f_vn s) (f_nn s) (f_inits s) (f_seen s) (f_vcnt s) (f_ncnt s)
                         (top :: f_vscopes s) ([] :: f_nscopes s) (f_mod s) in
           fbind (process_values ins s1) (fun s2 =>
           fbind (process_values outs s2) (fun s3 =>
@@ -376,7 +379,7 @@ Definition fx_step (e : ev) (s : fstate) : fres :=
           else process_values (map snd (get_dict gid (f_inits s3))) s3))   (* tuple(initializers.values()) *)
       end
   | EExit =>
-      (mkF (f_vn s) (f_nn s) (f_inits s) (f_seen s) (f_vcnt s) (f_ncnt s)
+      (mkF (f_rv s) (f_rn s) (f_vn s) (f_nn s) (f_inits s) (f_seen s) (f_vcnt s) (f_ncnt s)
            (tl (f_vscopes s)) (tl (f_nscopes s)) (f_mod s), None)
   | ENode nid nins nouts =>
       fbind (process_node_name nid s) (fun s1 =>
@@ -390,11 +393,29 @@ Fixpoint fx_events (es : list ev) (s : fstate) : fres :=
   | e :: r => fbind (fx_step e s) (fx_events r)
   end.
 
-(* _fix_graph_names(graph_like): fresh seen/counters/scopes (the dummy bottom scope), then the traversal *)
-Definition fx_init (vn nn : N -> option name) (inits : list (N * idict)) (m : bool) : fstate :=
-  mkF vn nn inits [] [] [] [[]] [[]] m.
+(* _collect_existing_names(graph_like): all non-empty value names (graph inputs/outputs, initializer keys,
+   node inputs/outputs) and node names met by a RecursiveGraphIterator run with an enter_graph callback. *)
+Definition named (f : N -> option name) (xs : list N) : list name :=
+  flat_map (fun x => match f x with Some (c :: n) => [c :: n] | _ => [] end) xs.
+Fixpoint collect_names (es : list ev) (vn nn : N -> option name) (inits : list (N * idict)) : list name * list name :=
+  match es with
+  | [] => ([], [])
+  | EEnter gid isfunc ins outs :: r =>
+      let '(a, b) := collect_names r vn nn inits in
+      (named vn (ins ++ outs) ++ (if isfunc then [] else map fst (get_dict gid inits)) ++ a, b)
+  | EExit :: r => collect_names r vn nn inits
+  | ENode nid nins nouts :: r =>
+      let '(a, b) := collect_names r vn nn inits in
+      (named vn (somes nins ++ nouts) ++ a, named nn [nid] ++ b)
+  end.
+
+(* _fix_graph_names(graph_like): fresh seen/counters/scopes (the dummy bottom scope), the reserved names,
+   then the traversal *)
+Definition fx_init (rv rn : list name) (vn nn : N -> option name) (inits : list (N * idict)) (m : bool) : fstate :=
+  mkF rv rn vn nn inits [] [] [] [[]] [[]] m.
 Definition fix_graph_names (g : graph) (vn nn : N -> option name) (inits : list (N * idict)) (m : bool) : fres :=
-  fx_events (events_graph g) (fx_init vn nn inits m).
+  let '(rv, rn) := collect_names (events_graph g) vn nn inits in
+  fx_events (events_graph g) (fx_init rv rn vn nn inits m).
 
 (* NameFixPass.call: main graph, then every function, each with fresh bookkeeping *)
 Fixpoint fix_all (gs : list graph) (s : fstate) : fres :=
@@ -403,7 +424,7 @@ Fixpoint fix_all (gs : list graph) (s : fstate) : fres :=
   | g :: r => fbind (fix_graph_names g (f_vn s) (f_nn s) (f_inits s) (f_mod s)) (fix_all r)
   end.
 Definition name_fix_pass (main : graph) (funcs : list graph) (vn nn : N -> option name) (inits : list (N * idict)) : fres :=
-  fix_all (main :: funcs) (fx_init vn nn inits false).
+  fix_all (main :: funcs) (fx_init [] [] vn nn inits false).
 
 (* ================================================================== (C) rename_values *)
 Record rstate := mkR {
